@@ -278,6 +278,28 @@ def extract(P, G):
                     if lo is None or hi is None:
                         # variable ranges (the header-word table rows) are handled by their own rule
                         continue
+                    # adjacent fields written by one statement: buf[a:c] = enc(x) + enc(y)
+                    parts = []
+                    v_ = n.value
+                    while isinstance(v_, ast.BinOp) and isinstance(v_.op, ast.Add):
+                        parts.insert(0, v_.right)
+                        v_ = v_.left
+                    parts.insert(0, v_)
+                    if len(parts) > 1:
+                        widths = []
+                        for p_ in parts:
+                            nm = U(p_.func).split('.')[-1] if isinstance(p_, ast.Call) else None
+                            w_ = None
+                            if nm in C and len(C[nm].fmts) == 1:
+                                w_ = list(C[nm].fmts)[0]
+                            widths.append(w_)
+                        if all(w_ is not None for w_ in widths) and sum(widths) == hi - lo:
+                            cur = lo
+                            for p_, w_ in zip(parts, widths):
+                                codec, fmt, val = codec_of(p_, C, w_)
+                                stores.append(Slot('store', f, t, cur, cur + w_, codec, fmt, val, t.value.id, n))
+                                cur += w_
+                            continue
                     codec, fmt, val = codec_of(n.value, C, hi - lo)
                     stores.append(Slot('store', f, t, lo, hi, codec, fmt, val, t.value.id, n))
         # seek + write patches
